@@ -16,6 +16,7 @@
              (code as for Keep; key material left unwiped shows as a code >= 2^40)
            9 Inv(u8)       zeroize -> 0xFF,          DEFAULT = default() = 0
            10 Page {tag, fill: [u8; 4999]}  zeroize -> all zero, DEFAULT = default() = all zero
+           11 Cnt(u8)      zeroize -> x + 1 (counts its wipes: not idempotent), DEFAULT = default() = 0
            element code: little-endian packing of the fields (u16 fields: a + 65536 b;
            byte arrays: b0 + 256 b1 + 65536 b2)
    observables: [N; elements ...] *)
@@ -23,7 +24,8 @@ From GA Require Import Base Codec ZeroDefault.
 Local Open Scope Z_scope.
 
 Definition zero_of (ty : Z) (x : Z) : Z :=
-  if (ty =? 5) || (ty =? 8) then x mod 65536 else if ty =? 9 then 255 else 0.
+  if (ty =? 5) || (ty =? 8) then x mod 65536 else if ty =? 9 then 255
+  else if ty =? 11 then (x + 1) mod 256 else 0.
 
 Definition default_of (ty : Z) : Z :=
   if ty =? 4 then 7 + 9 * 65536
